@@ -2,6 +2,7 @@ package conc
 
 import (
 	"context"
+	"errors"
 	"fmt"
 	"runtime"
 	"sync"
@@ -62,14 +63,15 @@ type Env struct {
 	installs []Install
 	inCB     atomic.Int32
 	// Overlap is set when two callbacks were ever in flight at once.
-	Overlap atomic.Bool
-	nextID  atomic.Int64
-	hookN   atomic.Uint64
+	Overlap   atomic.Bool
+	nextID    atomic.Int64
+	sentinels atomic.Int64
+	hookN     atomic.Uint64
 	// Jitter: percentage of hook points at which the monitor/callback
 	// goroutine yields (seeded).
 	Jitter int
 	// ExtraHook is called after the standard hook handling.
-	ExtraHook func(name string, args []any)
+	ExtraHook func(name string, ctx context.Context, args []any)
 	// CBGate, if non-nil, is received from inside every global callback
 	// before it returns (lets a script park the callback goroutine).
 	CBGate chan struct{}
@@ -224,7 +226,7 @@ func Start(parent context.Context, seed uint64, o Opts, initLayers func(e *Env, 
 	return e, nil
 }
 
-func (e *Env) onHook(name string, args []any) {
+func (e *Env) onHook(name string, ctx context.Context, args []any) {
 	switch name {
 	case "mon.stored":
 		// args: d, serial, cfg
@@ -254,7 +256,7 @@ func (e *Env) onHook(name string, args []any) {
 		}
 	}
 	if h := e.ExtraHook; h != nil {
-		h(name, args)
+		h(name, ctx, args)
 	}
 }
 
@@ -342,4 +344,68 @@ func (e *Env) Stop() bool {
 	case <-time.After(10 * time.Second):
 		return false
 	}
+}
+
+// InCB returns the number of callbacks currently executing.
+func (e *Env) InCB() int32 { return e.inCB.Load() }
+
+// WaitUntil polls cond (yielding) until it holds; false when the watchdog expires.
+func WaitUntil(cond func() bool, d time.Duration) bool {
+	deadline := time.Now().Add(d)
+	for !cond() {
+		if time.Now().After(deadline) {
+			return false
+		}
+		time.Sleep(50 * time.Microsecond)
+	}
+	return true
+}
+
+// ErrSentinel is the error reported by FenceMonitor.
+var ErrSentinel = errors.New("harness: monitor fence sentinel")
+
+// FenceMonitor returns once the monitor goroutine has finished every loop
+// iteration that started before the call (including the announce step that
+// follows a blocking report's reply): it reports a sentinel error through a
+// watching source, and the unbuffered report channel is only received from
+// at the top of the monitor loop. Side effect: one watch-error event.
+func (e *Env) FenceMonitor(ctx context.Context) bool {
+	return e.SendSentinel(ctx)
+}
+
+// SendSentinel reports the sentinel error through the first watching source
+// and counts it (see SentinelsSent).
+func (e *Env) SendSentinel(ctx context.Context) bool {
+	for _, s := range e.Srcs {
+		if s != nil {
+			if s.WA().ReportError(ctx, ErrSentinel) == nil {
+				e.sentinels.Add(1)
+				return true
+			}
+			return false
+		}
+	}
+	return false
+}
+
+// SentinelsSent is the number of sentinel errors handed to the monitor.
+func (e *Env) SentinelsSent() int64 { return e.sentinels.Load() }
+
+// ErrCallbacks counts logged OnWatchedError invocations.
+func (e *Env) ErrCallbacks() int64 {
+	e.mu.Lock()
+	defer e.mu.Unlock()
+	n := int64(0)
+	for _, ev := range e.cbLog {
+		if ev.Kind == "err" {
+			n++
+		}
+	}
+	return n
+}
+
+// Quiesce = FenceMonitor then FenceCallbacks: afterwards every install made
+// before the call has been announced and every queued callback has run.
+func (e *Env) Quiesce(ctx context.Context) bool {
+	return e.FenceMonitor(ctx) && e.FenceCallbacks(ctx)
 }
